@@ -11,7 +11,7 @@ BUDGET = {"quick": 45, "thorough": 600}
 QUICK_CASES = 2200  # generator items in the quick tier (fixed amount of work; BUDGET is then only a safety cap)
 FLOOR = {"quick": 700, "thorough": 8000}
 TIMEOUT = 120
-REQUIRED_OBS = ["file_sets", "selection_checks", "permutations_checked", "install_runs", "install_decisions_checked", "installs_requested", "foreign_packages_seen", "second_runs_checked", "disallowed_runs"]
+REQUIRED_OBS = ["file_sets", "selection_checks", "permutations_checked", "install_runs", "install_decisions_checked", "installs_requested", "foreign_packages_seen", "second_runs_checked", "disallowed_runs", "reload_path_runs"]
 RULE = (
     "real temp trees with requirements.txt at the four documented locations (pyscript/, apps/<x>/, modules/<x>/, scripts/<x>/); multisets of "
     "lines for <= 4 packages: pins in several spellings of a version (1.0 / 1.0.0 / 01.0), versions crossing a power of ten, unpinned, "
@@ -302,6 +302,18 @@ def run_case(case):
                     viol.append({"mech": "second_run_installs_again", "msg": f"second identical run asked for {run2}; first {run1}; record {rec1}"})
                 elif rec2 != rec1:
                     viol.append({"mech": "record_changes_on_idle_run", "msg": f"record {rec1} -> {rec2} on a run that installed nothing"})
+                # ---- the same again through the real reload path (yaml re-read, config-entry update, reload handler)
+                if not viol and rec2:
+                    w.config["allow_all_imports"] = True
+                    calls.clear()
+                    await w.reload()
+                    obs["reload_path_runs"] += 1
+                    run3 = [r for c in calls for r in c]
+                    rec3 = dict(w.entry.data.get(CONF_INSTALLED_PACKAGES, {}))
+                    if rec3 != rec2:
+                        viol.append({"mech": "record_lost_on_reload", "msg": f"pyscript.reload: record of installed packages {rec2} -> {rec3}"})
+                    elif run3:
+                        viol.append({"mech": "second_run_installs_again", "msg": f"pyscript.reload with nothing changed asked for {run3}; record {rec2}"})
         shutil.rmtree(os.path.join(folder, "apps"), ignore_errors=True)
 
     w, _ = run_world(main, files={}, config={"allow_all_imports": True}, keep=True)
